@@ -16,6 +16,7 @@ package lnwallet
 //@
 //@ func CoopCloseBalance
 //@   props C17
+//@   bounds-safe
 //@   let delta     = commitFee + ite(chanType.HasAnchors(), 660, 0)
 //@   let payerLoc  = ite(feePayer.isSome, feePayer.some == lntypes.Local, isInitiator)
 //@   let payerRem  = ite(feePayer.isSome, feePayer.some == lntypes.Remote, !isInitiator)
@@ -39,6 +40,7 @@ package lnwallet
 //@
 //@ func (lc *LightningChannel) CreateCloseProposal
 //@   props C17
+//@   bounds-safe
 //@   loop * havoc
 //@   requires lc.channelState.LocalCommitment.LocalBalance <= 2100000000000000000 && lc.channelState.LocalCommitment.RemoteBalance <= 2100000000000000000
 //@   requires 0 <= lc.channelState.LocalCommitment.CommitFee && lc.channelState.LocalCommitment.CommitFee <= 2100000000000000
@@ -71,6 +73,7 @@ package lnwallet
 //@
 //@ func (lc *LightningChannel) RevokeCurrentCommitment
 //@   props C06 C02
+//@   bounds-safe
 //@   ensures result3 != nil ==> result0 == nil
 //@   ensures result3 == nil ==> result0 == retn(generateRevocation, 0) && retn(generateRevocation, 1) == nil &&
 //@           retn(UpdateCommitment, 1) == nil && lc.currentHeight == wrap(old(lc.currentHeight) + 1, 64)
@@ -83,6 +86,7 @@ package lnwallet
 //@
 //@ func (lc *LightningChannel) generateRevocation
 //@   props C06 C02
+//@   bounds-safe
 //@   loop * havoc
 //@   ensures result1 == nil ==> result0 != nil && retn(AtIndex, 1, 0) == nil && retn(AtIndex, 1, 1) == nil
 //@   site call AtIndex nth 0: assert arg(1) == height && arg(0) == lc.channelState.RevocationProducer
@@ -93,6 +97,7 @@ package lnwallet
 //@
 //@ func (lc *LightningChannel) ReceiveRevocation
 //@   props C06 C02 C01
+//@   bounds-safe
 //@   loop * havoc
 //@   site call NewHash: assert arg(0) == sliceof(revMsg.Revocation)
 //@   site call AddNextEntry: assert arg(1) == retn(NewHash, 0) && retn(NewHash, 1) == nil &&
@@ -126,6 +131,7 @@ package lnwallet
 //@
 //@ func (lc *LightningChannel) ReceiveNewCommitment
 //@   props C02
+//@   bounds-safe
 //@   loop 0 invariant 0 <= i && i <= len(verifyJobs)
 //@   loop 0 step htlcErr == nil && i == prev(i) + 1
 //@   site call Verify: assert arg(0) == retn(ToSignature, 0) && retn(ToSignature, 1) == nil &&
@@ -140,6 +146,7 @@ package lnwallet
 //@
 //@ func (lc *LightningChannel) SettleHTLC
 //@   props C08 C01
+//@   bounds-safe
 //@   site call lookupHtlc: assert arg(0) == lc.updateLogs.Remote && arg(i) == htlcIndex
 //@   site call htlcHasModification: assert arg(0) == lc.updateLogs.Remote && arg(i) == htlcIndex
 //@   site call Sum256: assert arg(0) == sliceof(preimage)
@@ -151,6 +158,7 @@ package lnwallet
 //@
 //@ func (lc *LightningChannel) ReceiveHTLCSettle
 //@   props C08 C01
+//@   bounds-safe
 //@   site call lookupHtlc: assert arg(0) == lc.updateLogs.Local && arg(i) == htlcIndex
 //@   site call htlcHasModification: assert arg(0) == lc.updateLogs.Local && arg(i) == htlcIndex
 //@   site call Sum256: assert arg(0) == sliceof(preimage)
@@ -162,6 +170,7 @@ package lnwallet
 //@
 //@ func (lc *LightningChannel) FailHTLC
 //@   props C08 C01
+//@   bounds-safe
 //@   site call lookupHtlc: assert arg(0) == lc.updateLogs.Remote && arg(i) == htlcIndex
 //@   site call htlcHasModification: assert arg(0) == lc.updateLogs.Remote && arg(i) == htlcIndex
 //@   site call appendUpdate: assert ret(lookupHtlc) != nil && !ret(htlcHasModification) &&
@@ -172,6 +181,7 @@ package lnwallet
 //@
 //@ func (lc *LightningChannel) MalformedFailHTLC
 //@   props C08 C01
+//@   bounds-safe
 //@   site call lookupHtlc: assert arg(0) == lc.updateLogs.Remote && arg(i) == htlcIndex
 //@   site call htlcHasModification: assert arg(0) == lc.updateLogs.Remote && arg(i) == htlcIndex
 //@   site call appendUpdate: assert ret(lookupHtlc) != nil && !ret(htlcHasModification) &&
@@ -182,6 +192,7 @@ package lnwallet
 //@
 //@ func (lc *LightningChannel) ReceiveFailHTLC
 //@   props C08 C01
+//@   bounds-safe
 //@   site call lookupHtlc: assert arg(0) == lc.updateLogs.Local && arg(i) == htlcIndex
 //@   site call htlcHasModification: assert arg(0) == lc.updateLogs.Local && arg(i) == htlcIndex
 //@   site call appendUpdate: assert ret(lookupHtlc) != nil && !ret(htlcHasModification) &&
@@ -192,6 +203,7 @@ package lnwallet
 //@
 //@ func (lc *LightningChannel) ProcessChanSyncMsg
 //@   props C06 C03
+//@   bounds-safe
 //@   loop * havoc
 //@   site call tail nth 0: assert arg(0) == lc.commitChains.Local
 //@   site call tail nth 1: assert arg(0) == lc.commitChains.Remote
@@ -226,6 +238,7 @@ package lnwallet
 //@
 //@ func (lc *LightningChannel) restoreStateLogs
 //@   props C02 C03
+//@   bounds-safe
 //@   loop * havoc
 //@   loop 0 step incomingRemoteAddHeights[r.HtlcIndex] == pendingRemoteCommit.height
 //@   loop 1 step incomingRemoteAddHeights[r.HtlcIndex] == remoteCommitment.height
@@ -255,6 +268,7 @@ package lnwallet
 //@
 //@ func (lc *LightningChannel) restorePendingRemoteUpdates
 //@   props C02 C03
+//@   bounds-safe
 //@   loop * havoc
 //@   site store Dual.Remote: assert pendingRemoteCommit != nil && value == pendingRemoteCommit.height &&
 //@        retn(remoteLogUpdateToPayDesc, 0).LogIndex < pendingRemoteCommit.messageIndices.Remote
@@ -267,6 +281,7 @@ package lnwallet
 //@
 //@ func (lc *LightningChannel) restorePeerLocalUpdates
 //@   props C02 C03
+//@   bounds-safe
 //@   loop * havoc
 //@   site call restoreUpdate: assert arg(0) == lc.updateLogs.Local && arg(1) == retn(localLogUpdateToPayDesc, 0) &&
 //@        retn(localLogUpdateToPayDesc, 1) == nil
@@ -276,6 +291,7 @@ package lnwallet
 //@
 //@ func DeriveCommitmentKeys
 //@   props C04
+//@   bounds-safe
 //@   let isLocal = whoseCommit == lntypes.Local
 //@   site call TweakPubKey nth 0: assert arg(0) == localChanCfg.HtlcBasePoint.PubKey && arg(1) == commitPoint
 //@   site call TweakPubKey nth 1: assert arg(0) == remoteChanCfg.HtlcBasePoint.PubKey && arg(1) == commitPoint
@@ -293,6 +309,7 @@ package lnwallet
 //@
 //@ func findOutputIndexesFromRemote
 //@   props C04
+//@   bounds-safe
 //@   loop * havoc
 //@   site call DeriveCommitmentKeys: assert arg(0) == retn(PrivKeyFromBytes, 1) && arg(1) == lntypes.Remote &&
 //@        arg(2) == old(chanState.ChanType) && arg(3) == addr(chanState.LocalChanCfg) && arg(4) == addr(chanState.RemoteChanCfg)
@@ -305,6 +322,7 @@ package lnwallet
 //@
 //@ func createHtlcRetribution
 //@   props C04
+//@   bounds-safe
 //@   modifies-assumed nothing
 //@   requires chanState != nil
 //@   site call SecondLevelHtlcScript: assert arg(0) == chanState.ChanType && arg(1) == !chanState.IsInitiator &&
@@ -339,6 +357,7 @@ package lnwallet
 //@
 //@ func NewBreachRetribution
 //@   props C04
+//@   bounds-safe
 //@   requires chanState != nil
 //@   requires spendTx != nil ==> forallq(k, 0, len(spendTx.TxOut), spendTx.TxOut[k] != nil)
 //@   loop * havoc
@@ -382,6 +401,7 @@ package lnwallet
 //@
 //@ func SetStateNumHint
 //@   props C04
+//@   bounds-safe
 //@   ensures result == nil ==> stateNum <= 281474976710655 && len(commitTx.TxIn) == 1
 //@   ensures result == nil ==> commitTx.TxIn[0].Sequence == hintSeq(stateNum, ret(Uint64))
 //@   ensures result == nil ==> commitTx.LockTime == hintLock(stateNum, ret(Uint64))
@@ -398,6 +418,7 @@ package lnwallet
 //@
 //@ func (lc *LightningChannel) localLogUpdateToPayDesc
 //@   props C03 C02
+//@   bounds-safe
 //@   requires logUpdate != nil
 //@   let m = logUpdate.UpdateMsg
 //@   ensures result1 == nil ==> result0 != nil && result0.LogIndex == logUpdate.LogIndex
@@ -422,6 +443,7 @@ package lnwallet
 //@
 //@ func (lc *LightningChannel) remoteLogUpdateToPayDesc
 //@   props C03 C02
+//@   bounds-safe
 //@   requires logUpdate != nil
 //@   let m = logUpdate.UpdateMsg
 //@   let isAdd = typeis(m, *lnwire.UpdateAddHTLC)
@@ -448,6 +470,7 @@ package lnwallet
 //@
 //@ func (lc *LightningChannel) evaluateHTLCView
 //@   props C01
+//@   bounds-safe
 //@   requires view != nil
 //@   loop * havoc
 //@   let cp = ite(party == lntypes.Local, lntypes.Remote, lntypes.Local)
@@ -469,6 +492,7 @@ package lnwallet
 //@
 //@ func (lc *LightningChannel) computeView
 //@   props C01
+//@   bounds-safe
 //@   requires view != nil
 //@   loop * havoc
 //@   let isInit = old(lc.channelState.IsInitiator)
@@ -496,6 +520,7 @@ package lnwallet
 //@
 //@ func (cb *CommitmentBuilder) createUnsignedCommitmentTx
 //@   props C01
+//@   bounds-safe
 //@   requires cb != nil && filteredHTLCView != nil && 0 <= feePerKw && feePerKw <= 1<<40
 //@   site call FeeForWeight: domain 0 <= numHTLCs && numHTLCs <= 1000
 //@   loop * havoc
@@ -526,6 +551,7 @@ package lnwallet
 //@
 //@ func HtlcIsDust
 //@   props C01
+//@   bounds-safe
 //@   requires 0 <= feePerKw && feePerKw <= 1<<40
 //@   let successTx = (incoming && whoseCommit == lntypes.Local) || (!incoming && whoseCommit == lntypes.Remote)
 //@   site call HtlcSuccessFee: assert successTx && arg(0) == chanType && arg(1) == feePerKw
@@ -537,6 +563,7 @@ package lnwallet
 //@
 //@ func CreateCommitTx
 //@   props C01
+//@   bounds-safe
 //@   site call CommitScriptToSelf: assert arg(0) == chanType && arg(1) == initiator && arg(2) == keyRing.ToLocalKey &&
 //@        arg(3) == keyRing.RevocationKey && arg(4) == localChanCfg.CsvDelay && arg(5) == leaseExpiry
 //@   site call CommitScriptToRemote: assert arg(0) == chanType && arg(1) == initiator && arg(2) == keyRing.ToRemoteKey && arg(3) == leaseExpiry
@@ -564,6 +591,7 @@ package lnwallet
 //@
 //@ func HtlcTimeoutFee
 //@   props C01
+//@   bounds-safe
 //@   requires 0 <= feePerKw && feePerKw <= 1<<40
 //@   ensures (chanType.ZeroHtlcTxFee() || chanType.IsTaproot()) ==> result == 0
 //@   ensures !(chanType.ZeroHtlcTxFee() || chanType.IsTaproot()) ==>
@@ -572,6 +600,7 @@ package lnwallet
 //@
 //@ func HtlcSuccessFee
 //@   props C01
+//@   bounds-safe
 //@   requires 0 <= feePerKw && feePerKw <= 1<<40
 //@   ensures (chanType.ZeroHtlcTxFee() || chanType.IsTaproot()) ==> result == 0
 //@   ensures !(chanType.ZeroHtlcTxFee() || chanType.IsTaproot()) ==>
@@ -580,6 +609,7 @@ package lnwallet
 //@
 //@ func CommitWeight
 //@   props C01
+//@   bounds-safe
 //@   ensures result == ite(chanType.IsTaproot(), input.TaprootCommitWeight, ite(chanType.HasAnchors(), input.AnchorCommitWeight, input.CommitWeight))
 //@   modifies nothing
 //@
@@ -610,6 +640,7 @@ package lnwallet
 //@ // ---- irrevocably moved past the height that removed it
 //@ func compactLogs$1
 //@   props C01
+//@   bounds-safe
 //@   loop * havoc
 //@   site call removeUpdate: assert arg(0) == logA && arg(1) == htlc.LogIndex && htlc.EntryType != Add &&
 //@        htlc.removeCommitHeights.Remote != 0 && htlc.removeCommitHeights.Local != 0 &&
@@ -620,6 +651,7 @@ package lnwallet
 //@
 //@ func compactLogs
 //@   props C01
+//@   bounds-safe
 //@   site call compactLogs$1 nth 0: assert arg(0) == ourLog && arg(1) == theirLog
 //@   site call compactLogs$1 nth 1: assert arg(0) == theirLog && arg(1) == ourLog
 //@
@@ -628,6 +660,7 @@ package lnwallet
 //@ // ---- index, the channel's delays and this commitment's keys
 //@ func CreateHtlcTimeoutTx
 //@   props C05
+//@   bounds-safe
 //@   site store MsgTx.LockTime: assert value == cltvExpiry
 //@   site store TxIn.Sequence: assert value == ret(HtlcSecondLevelInputSequence)
 //@   site store TxIn.PreviousOutPoint: assert value.Hash == htlcOutput.Hash && value.Index == htlcOutput.Index
@@ -641,6 +674,7 @@ package lnwallet
 //@
 //@ func CreateHtlcSuccessTx
 //@   props C05
+//@   bounds-safe
 //@   site store TxIn.Sequence: assert value == ret(HtlcSecondLevelInputSequence)
 //@   site store TxIn.PreviousOutPoint: assert value.Hash == htlcOutput.Hash && value.Index == htlcOutput.Index
 //@   site store TxOut.Value: assert value == htlcAmt
@@ -653,6 +687,7 @@ package lnwallet
 //@
 //@ func HtlcSecondLevelInputSequence
 //@   props C05
+//@   bounds-safe
 //@   ensures result == ite(chanType.HasAnchors(), 1, 0)
 //@   modifies nothing
 //@
@@ -766,6 +801,7 @@ package lnwallet
 //@
 //@ func extractHtlcResolutions
 //@   props C05
+//@   bounds-safe
 //@   loop * havoc
 //@   site call HtlcIsDust as dust-domain: domain 0 <= feePerKw && feePerKw <= 1<<40
 //@   site call HtlcIsDust: assert arg(chanType) == chanType && arg(incoming) == htlc.Incoming && arg(whoseCommit) == whoseCommit &&
@@ -790,6 +826,7 @@ package lnwallet
 //@
 //@ func NewLocalForceCloseSummary
 //@   props C05
+//@   bounds-safe
 //@   loop * havoc
 //@   site call AtIndex: assert arg(1) == stateNum && csvTimeout == wrap(chanState.LocalChanCfg.CsvDelay, 32)
 //@   site call ComputeCommitmentPoint: assert arg(0) == sliceof(*revocation) && retn(AtIndex, 1) == nil && revocation == retn(AtIndex, 0)
@@ -824,6 +861,7 @@ package lnwallet
 //@
 //@ func NewUnilateralCloseSummary
 //@   props C05
+//@   bounds-safe
 //@   loop * havoc
 //@   site call DeriveCommitmentKeys: assert arg(commitPoint) == commitPoint && arg(whoseCommit) == lntypes.Remote &&
 //@        arg(chanType) == chanState.ChanType && arg(localChanCfg) == addr(chanState.LocalChanCfg) && arg(remoteChanCfg) == addr(chanState.RemoteChanCfg)
@@ -852,6 +890,7 @@ package lnwallet
 //@
 //@ func NewAnchorResolution
 //@   props C05
+//@   bounds-safe
 //@   loop * havoc
 //@   site call CommitScriptAnchors: assert arg(0) == chanState.ChanType && arg(1) == addr(chanState.LocalChanCfg) &&
 //@        arg(2) == addr(chanState.RemoteChanCfg) && arg(3) == keyRing
@@ -871,6 +910,7 @@ package lnwallet
 //@
 //@ func (lc *LightningChannel) getSignedCommitTx
 //@   props C05
+//@   bounds-safe
 //@   site call GetSignedCommitTx: assert arg(inputs).CommitTx == lc.channelState.LocalCommitment.CommitTx &&
 //@        arg(inputs).CommitSig == lc.channelState.LocalCommitment.CommitSig &&
 //@        arg(inputs).OurKey.PubKey == lc.channelState.LocalChanCfg.MultiSigKey.PubKey &&
@@ -893,6 +933,7 @@ package lnwallet
 //@
 //@ func (lc *LightningChannel) ForceClose
 //@   props C05
+//@   bounds-safe
 //@   loop * havoc
 //@   site call NewLocalForceCloseSummary: assert arg(chanState) == lc.channelState && arg(signer) == lc.Signer &&
 //@        arg(commitTx) == retn(getSignedCommitTx, 0) && retn(getSignedCommitTx, 1) == nil &&
@@ -902,6 +943,7 @@ package lnwallet
 //@
 //@ func createStateHintObfuscator
 //@   props C04
+//@   bounds-safe
 //@   site call DeriveStateHintObfuscator nth 0: assert state.IsInitiator &&
 //@        arg(0) == state.LocalChanCfg.PaymentBasePoint.PubKey && arg(1) == state.RemoteChanCfg.PaymentBasePoint.PubKey
 //@   site call DeriveStateHintObfuscator nth 1: assert !state.IsInitiator &&
@@ -912,6 +954,7 @@ package lnwallet
 //@
 //@ func (pd *paymentDescriptor) setCommitHeight
 //@   props C01
+//@   bounds-safe
 //@   let t = old(pd.EntryType)
 //@   ensures (t == Settle || t == Fail || t == MalformedFail || t == FeeUpdate) && whoseCommitChain == lntypes.Local ==> pd.removeCommitHeights.Local == nextHeight
 //@   ensures (t == Settle || t == Fail || t == MalformedFail || t == FeeUpdate) && whoseCommitChain == lntypes.Remote ==> pd.removeCommitHeights.Remote == nextHeight
